@@ -183,6 +183,12 @@ impl<Stdout: Write + Clone, Stderr: Write + Clone> Environment<Stdout, Stderr> {
         self.out_lock.remove(path.as_ref());
     }
 
+    /// Releases every output lock. The "one output per file" locks guard the build of a
+    /// single file; they must not outlive it.
+    pub fn reset_out_locks(&mut self) {
+        self.out_lock.clear();
+    }
+
     pub fn stdout(&self) -> Stdout {
         self.stdout.clone()
     }
